@@ -9,6 +9,7 @@ import JSight.AnnTreeExamples
 import JSight.ATreeStrip
 import JSight.ATreeExamples
 import JSight.AnnotQExamples
+import JSight.KeyOrderExamples
 /-!
 # C13 — Meaning is invariant under surface syntax: the part that is a theorem
 
@@ -544,4 +545,162 @@ example : annEvsQ .inline (Lay.Ex.sB.map classify) [.sp] [.sp] Lay.Ex.gobE.cls [
       ⟨.keyB, 33, 33⟩, ⟨.keyE, 33, 37⟩, ⟨.valB, 40, 40⟩, ⟨.litB, 40, 40⟩, ⟨.litE, 40, 44⟩, ⟨.valE, 40, 44⟩,
       ⟨.objE, 7, 45⟩, ⟨.inlAnnE, 4, 45⟩] := by decide
 
+/-! ## Property order in objects WITH key shortcuts (known finding K-C13-keyorder)
+
+The validator (`VK.validateT` = its specification `VK.shape`, `VK.C03_key_shortcuts`) gives a document key that is no
+literal key of the schema object to the first UNUSED shortcut whose key type admits it, in declaration order, and to
+`additionalProperties` when none is left (fix F-15, no backtracking). So when two of the document's non-literal keys
+are admitted by one shortcut, the one that comes first in the text takes it and the verdict may depend on the order of
+the properties: the clause "property order leaves the verdict unchanged" is FALSE for such documents
+(`C13_property_order_keys_full_false`). It holds for *key-unambiguous* pairs (schema object, key list):
+`KeyOrder.unamb keyOK props shorts keys` — no two positions of `keys` hold keys that are both absent from `props` and
+both admitted (`keyOK`) by one shortcut of `shorts`. The predicate reads `props`, `shorts`, `keyOK` and the keys only.
+"Every non-literal key is admitted by at most one shortcut" (`KeyOrder.atMostOneShort`) is NOT enough
+(`C13_property_order_keys_atmostone_false`: one shortcut, two keys it admits, `additionalProperties: "string"`), and
+not needed either (a key admitted by two shortcuts always takes the first, when no other key competes).
+The hypothesis "keys pairwise distinct" is not needed: a repeated non-literal key that a shortcut admits collides with
+itself, and for a repeated literal key the verdicts of the members do not depend on the position. -/
+section keyorder
+open VN (J)
+variable {L D : Type}
+
+/-- **one object level, arbitrary fixed verdicts** (`pv s v`: value `v` under the schema `s` of a literal key or a
+shortcut, `av v`: under `additionalProperties`; neither depends on the position of the member): the members loop gives
+the same verdict on every permutation of the members of a key-unambiguous object; `KeyOrder.loop` is the loop of the
+specification (`C13_members_loop`) -/
+theorem C13_property_order_keys_level (keyOK : String → String → Bool) (pv : VK.S L → J D → Bool) (av : J D → Bool)
+    (props shorts : List (String × Bool × VK.S L)) (req : List String) (ms ms' : List (String × J D)) (h : ms.Perm ms')
+    (hU : KeyOrder.unamb keyOK props shorts (ms.map (·.1)) = true) :
+    KeyOrder.loop keyOK pv av props shorts req [] ms = KeyOrder.loop keyOK pv av props shorts req [] ms' :=
+  KeyOrder.loop_perm keyOK pv av props shorts req h hU
+
+theorem C13_members_loop (env : VK.Env L) (litOK : L → D → Bool) (keyOK : String → String → Bool)
+    (props shorts : List (String × Bool × VK.S L)) (add : VK.AddMode L) (req used : List String) (ms : List (String × J D)) :
+    VK.shapeMembers env litOK keyOK props shorts add req used ms
+      = KeyOrder.loop keyOK (fun s v => (VK.alts env s).any (fun a => VK.shapeA env litOK keyOK a v))
+          (fun v => VK.addDecide litOK add v (fun n => (VK.alts env (.ref [n] none)).any (fun a => VK.shapeA env litOK keyOK a v)))
+          props shorts req used ms :=
+  KeyOrder.shapeMembers_eq_loop env litOK keyOK props shorts add req used ms
+
+/-- **C13, property order, objects with key shortcuts** (one object level; the member values are whole documents
+validated as the validator does): permuting the members of a document object does not change the verdict — of the
+specification and of the validator model — when the schema object is key-unambiguous for the document's keys -/
+theorem C13_property_order_keys_partial (env : VK.Env L) (litOK : L → D → Bool) (keyOK : String → String → Bool)
+    (props shorts : List (String × Bool × VK.S L)) (add : VK.AddMode L) (ms ms' : List (String × J D)) (h : ms.Perm ms')
+    (hU : KeyOrder.unamb keyOK props shorts (ms.map (·.1)) = true) :
+    VK.shape env litOK keyOK (.obj props shorts add) (.obj ms) = VK.shape env litOK keyOK (.obj props shorts add) (.obj ms') ∧
+    VK.validateT env litOK keyOK (.obj props shorts add) (.obj ms)
+      = VK.validateT env litOK keyOK (.obj props shorts add) (.obj ms') :=
+  ⟨KeyOrder.shape_obj_perm env litOK keyOK props shorts add h hU, KeyOrder.validateT_obj_perm env litOK keyOK props shorts add h hU⟩
+
+/-- **whole documents**: two documents that are the same JSON value up to the order of the properties at every depth
+(`VN.J.PermEq`) get the same verdict from any schema (named types, or-lists, arrays, `additionalProperties` included)
+that is key-unambiguous at every object the validator visits on the first one (`KeyOrder.unambDeep`: decided from
+the schema, `keyOK` and the keys of the document's objects) -/
+theorem C13_property_order_keys_deep (env : VK.Env L) (litOK : L → D → Bool) (keyOK : String → String → Bool)
+    (s : VK.S L) (d d' : J D) (h : d.PermEq d') (hu : KeyOrder.unambDeep env keyOK s d = true) :
+    VK.shape env litOK keyOK s d = VK.shape env litOK keyOK s d' ∧
+    VK.validateT env litOK keyOK s d = VK.validateT env litOK keyOK s d' :=
+  ⟨KeyOrder.shape_permEq env litOK keyOK s d d' h hu, KeyOrder.validateT_permEq env litOK keyOK s d d' h hu⟩
+
+/-- the predicate is itself invariant under the permutation (so it may be checked on either spelling) -/
+theorem C13_unamb_perm (keyOK : String → String → Bool) (props shorts : List (String × Bool × VK.S L))
+    (ks ks' : List String) (h : ks.Perm ks') : KeyOrder.unamb keyOK props shorts ks = KeyOrder.unamb keyOK props shorts ks' :=
+  KeyOrder.unamb_perm keyOK props shorts h
+
+/-- the clause as its text reads, for objects with key shortcuts: no unambiguity hypothesis, distinct keys -/
+def C13_property_order_keys_full : Prop :=
+  ∀ (L D : Type) (env : VK.Env L) (litOK : L → D → Bool) (keyOK : String → String → Bool)
+    (props shorts : List (String × Bool × VK.S L)) (add : VK.AddMode L) (ms ms' : List (String × J D)),
+    ms.Perm ms' → (ms.map (·.1)).Nodup →
+    VK.validateT env litOK keyOK (.obj props shorts add) (.obj ms)
+      = VK.validateT env litOK keyOK (.obj props shorts add) (.obj ms')
+
+/-- … with the hypothesis "every non-literal key is admitted by at most one shortcut" -/
+def C13_property_order_keys_atmostone : Prop :=
+  ∀ (L D : Type) (env : VK.Env L) (litOK : L → D → Bool) (keyOK : String → String → Bool)
+    (props shorts : List (String × Bool × VK.S L)) (add : VK.AddMode L) (ms ms' : List (String × J D)),
+    ms.Perm ms' → (ms.map (·.1)).Nodup → KeyOrder.atMostOneShort keyOK props shorts (ms.map (·.1)) = true →
+    VK.validateT env litOK keyOK (.obj props shorts add) (.obj ms)
+      = VK.validateT env litOK keyOK (.obj props shorts add) (.obj ms')
+
+open KeyOrder.Ex in
+/-- K-C13-keyorder in the model: `{@k1: 1, @k2: "s"}`, `@k1` = keys `^a`, `@k2` = keys `b$`:
+`{"a": 1, "ab": "s"}` is accepted, `{"ab": "s", "a": 1}` is rejected -/
+theorem C13_property_order_keys_full_false : ¬ C13_property_order_keys_full := by
+  intro h
+  have e := h Nat Nat [] litOK wKey [] wShorts .none wMs wMs' (List.Perm.swap _ _ _) (by decide +kernel)
+  have h1 : VK.validateT [] litOK wKey (.obj [] wShorts .none) (.obj wMs) = true := by decide +kernel
+  have h2 : VK.validateT [] litOK wKey (.obj [] wShorts .none) (.obj wMs') = false := by decide +kernel
+  rw [h1, h2] at e
+  exact Bool.noConfusion e
+
+open KeyOrder.Ex in
+/-- `{@k: 1} // {additionalProperties: "string"}`, `@k` = keys `^a`: `{"a": 1, "ab": "s"}` is accepted (`a` takes `@k`,
+`ab` is an additional property), `{"ab": "s", "a": 1}` is rejected (`ab` takes `@k`) -/
+theorem C13_property_order_keys_atmostone_false : ¬ C13_property_order_keys_atmostone := by
+  intro h
+  have e := h Nat Nat [] litOK uKey [] uShorts (.lit 1) wMs wMs' (List.Perm.swap _ _ _) (by decide +kernel) (by decide +kernel)
+  have h1 : VK.validateT [] litOK uKey (.obj [] uShorts (.lit 1)) (.obj wMs) = true := by decide +kernel
+  have h2 : VK.validateT [] litOK uKey (.obj [] uShorts (.lit 1)) (.obj wMs') = false := by decide +kernel
+  rw [h1, h2] at e
+  exact Bool.noConfusion e
+
+section examples
+open KeyOrder.Ex
+
+/-- the witness violates exactly the unambiguity predicate: the keys are distinct, the lists are permutations of each
+other, and `a`, `ab` are both admitted by `@k1` -/
+example : KeyOrder.unamb wKey [] wShorts (wMs.map (·.1)) = false ∧ (wMs.map (·.1)).Nodup ∧ wMs.Perm wMs' ∧
+    KeyOrder.collide wKey [] wShorts "a" "ab" = true :=
+  ⟨by decide +kernel, by decide +kernel, List.Perm.swap _ _ _, by decide +kernel⟩
+/-- it also violates the at-most-one predicate (`ab` is admitted by both); the second witness does not -/
+example : KeyOrder.atMostOneShort wKey [] wShorts (wMs.map (·.1)) = false := by decide +kernel
+example : KeyOrder.atMostOneShort uKey [] uShorts (wMs.map (·.1)) = true ∧
+    KeyOrder.unamb uKey [] uShorts (wMs.map (·.1)) = false := ⟨by decide +kernel, by decide +kernel⟩
+/-- a key admitted by two shortcuts with no competitor is unambiguous: `{"ab": "s"}` alone takes `@k1` in every order -/
+example : KeyOrder.unamb wKey [] wShorts ["ab", "zz"] = true ∧ KeyOrder.atMostOneShort wKey [] wShorts ["ab", "zz"] = false :=
+  ⟨by decide +kernel, by decide +kernel⟩
+
+/-! Non-vacuity: `{"id": 1, @ka: 2, @kb: "x"} // {additionalProperties: "string"}` (`@kb` optional; `@ka` = keys `^a`,
+`@kb` = keys `^b`, disjoint). `{"id": 7, "a1": 8, "zz": "s"}` — literal key, shortcut, additional property — meets the
+hypothesis and is accepted in all 6 orders; with `"a1": "no"` it is rejected in all 6 orders. -/
+example : KeyOrder.unamb nKey nProps nShorts (nMs3.map (·.1)) = true := by decide +kernel
+example : KeyOrder.unamb nKey nProps nShorts (nBad3.map (·.1)) = true := by decide +kernel
+example : [[("id", J.lit 0), ("a1", .lit 0), ("zz", .lit 1)], [("id", .lit 0), ("zz", .lit 1), ("a1", .lit 0)],
+      [("a1", .lit 0), ("id", .lit 0), ("zz", .lit 1)], [("a1", .lit 0), ("zz", .lit 1), ("id", .lit 0)],
+      [("zz", .lit 1), ("id", .lit 0), ("a1", .lit 0)], [("zz", .lit 1), ("a1", .lit 0), ("id", .lit 0)]].all
+    (fun ms => VK.validateT [] litOK nKey nSchema (.obj ms)) = true := by decide +kernel
+example : [[("id", J.lit 0), ("a1", .lit 1), ("zz", .lit 1)], [("id", .lit 0), ("zz", .lit 1), ("a1", .lit 1)],
+      [("a1", .lit 1), ("id", .lit 0), ("zz", .lit 1)], [("a1", .lit 1), ("zz", .lit 1), ("id", .lit 0)],
+      [("zz", .lit 1), ("id", .lit 0), ("a1", .lit 1)], [("zz", .lit 1), ("a1", .lit 1), ("id", .lit 0)]].all
+    (fun ms => !VK.validateT [] litOK nKey nSchema (.obj ms)) = true := by decide +kernel
+/-- through the theorem: EVERY reordering of the four-member document (both shortcuts used) is accepted, every
+reordering of the bad one rejected -/
+example (ms' : List (String × J Nat)) (h : nMs4.Perm ms') : VK.validateT [] litOK nKey nSchema (.obj ms') = true := by
+  unfold nSchema
+  rw [← (C13_property_order_keys_partial [] litOK nKey nProps nShorts (.lit 1) nMs4 ms' h (by decide +kernel)).2]
+  decide +kernel
+example (ms' : List (String × J Nat)) (h : nBad3.Perm ms') : VK.validateT [] litOK nKey nSchema (.obj ms') = false := by
+  unfold nSchema
+  rw [← (C13_property_order_keys_partial [] litOK nKey nProps nShorts (.lit 1) nBad3 ms' h (by decide +kernel)).2]
+  decide +kernel
+/-- whole documents: `{"o": {@ka: 2, @kb: "x"}, "l": [{@ka: 2} // {additionalProperties: true}]}`, the document reordered
+at both depths (inside `o`, inside the array element, at the top) -/
+example : KeyOrder.unambDeep [] nKey dSchema dDoc = true := by decide +kernel
+example : VK.validateT [] litOK nKey dSchema dDoc' = true := by
+  rw [← (C13_property_order_keys_deep [] litOK nKey dSchema dDoc dDoc' dDoc_permEq (by decide +kernel)).2]
+  decide +kernel
+
+end examples
+end keyorder
+
 end Props.C13
+
+#print axioms Props.C13.C13_property_order_keys_level
+#print axioms Props.C13.C13_members_loop
+#print axioms Props.C13.C13_property_order_keys_partial
+#print axioms Props.C13.C13_property_order_keys_deep
+#print axioms Props.C13.C13_unamb_perm
+#print axioms Props.C13.C13_property_order_keys_full_false
+#print axioms Props.C13.C13_property_order_keys_atmostone_false
